@@ -498,10 +498,10 @@ func c08(c *core.Ctx) {
 	}
 
 	// ---------------------------------------------------------------- R10
-	if c.Rule("R10", "the client's second-response probe can see every response: the in-process handler's SendMsg turns a message away (returns without the frame write) only because of the context, of the message itself, of a callee's error, or of the stream's lifecycle state (a field that other methods of the stream write too) — not because of a count it keeps of its own sends or of the kind of method: a surplus message that never leaves the server is invisible to the probe, and a handler that ignores the send's error then succeeds with the first message", 1) {
+	if c.Rule("R10", "the client's second-response probe can see every response: the handler's SendMsg (both transports) turns a message away (returns without the frame write) only because of the context, of the message itself, of a callee's error, or of the stream's lifecycle state (a field that other methods of the stream write too) — not because of a count it keeps of its own sends or of the kind of method: a surplus message that never leaves the server is invisible to the probe, and a handler that ignores the send's error then succeeds with the first message", 2) {
 		n := 0
 		for _, nt := range streamTypes(p, "ServerStream", "SendMsg") {
-			if pkgSuffixOf(nt) != "inprocgrpc" {
+			if pkgSuffixOf(nt) != "inprocgrpc" && pkgSuffixOf(nt) != "httpgrpc" {
 				continue
 			}
 			fn := declaredMethod(p, nt, "SendMsg")
@@ -519,11 +519,13 @@ func c08(c *core.Ctx) {
 					return false
 				}
 				h := call.Call.StaticCallee()
-				if h == nil || !isInprocFrameWriter(h) {
+				if h == nil {
 					return false
 				}
-				// the data frame (not the headers sent on the way)
-				return true
+				if isW, _ := httpFrameWriteCall(call); isW {
+					return true
+				}
+				return isInprocFrameWriter(h)
 			}
 			// fields of the stream written by methods of the type outside the send family: lifecycle state
 			lifecycle := map[string]bool{}
@@ -542,6 +544,46 @@ func c08(c *core.Ctx) {
 						}
 					}
 				})
+			}
+			// ... and a flag that the send path sets only after a frame write has FAILED is state of the same kind
+			// (the stream is broken; what could not be written is not "one message too many")
+			for _, f := range methodFamily(p, nt, "SendMsg") {
+				core.Instrs(f, func(in ssa.Instruction) {
+					st, ok := in.(*ssa.Store)
+					if !ok {
+						return
+					}
+					base, fld, isF := core.FieldOf(st.Addr)
+					if !isF || core.NamedOf(base.Type()) != tn || lifecycle[fld] {
+						return
+					}
+					if core.GuardedBy(st, func(fc core.Fact) bool {
+						if fc.Op != token.NEQ || fc.Y == nil || !core.IsNilConst(fc.Y) {
+							return false
+						}
+						return core.OriginIs(fc.X, func(o ssa.Value) bool {
+							cr, _, isC := core.CallResult(o)
+							return isC && isWrite(cr)
+						})
+					}) {
+						lifecycle[fld+"\x00failed"] = true
+					} else {
+						lifecycle[fld+"\x00other"] = true
+					}
+				})
+			}
+			for k := range lifecycle {
+				if strings.HasSuffix(k, "\x00failed") {
+					f := strings.TrimSuffix(k, "\x00failed")
+					if !lifecycle[f+"\x00other"] {
+						lifecycle[f] = true
+					}
+				}
+			}
+			for k := range lifecycle {
+				if strings.Contains(k, "\x00") {
+					delete(lifecycle, k)
+				}
 			}
 			n++
 			key := core.FuncName(fn) + ":turns-away-only-for-state"
@@ -605,6 +647,9 @@ func c08(c *core.Ctx) {
 	// reports success has put exactly one frame on the wire (C01/R2)
 	c.Borrow("C11", map[string]string{"R3": "R6", "R1": "R8"}, c11)
 	c.Borrow("C01", map[string]string{"R2": "R7"}, c01)
+	// a surplus response is seen by the probe only if it is not lost on the way: a frame the server abandoned because
+	// the context ended must not look like a clean end of the stream to a client that receives later (C02/R1)
+	c.Borrow("C02", map[string]string{"R1": "R11"}, c02)
 
 }
 
